@@ -173,6 +173,7 @@ def run(R, tier, seed, driver_ok):
         def spy_lg(self, X_, L_, dfG, k_, reg_, tn, li):
             out = o_lg(self, X_, L_, dfG, k_, reg_, tn, li)
             cap['calls'].append((np.array(L_, copy=True), float(out[1]), np.array(out[0], copy=True), int(out[2])))
+            cap['args'] = (X_, dfG, k_, reg_, tn, li)
             return out
 
         def spy_st(self, X_, li):
@@ -220,6 +221,18 @@ def run(R, tier, seed, driver_ok):
         if any(b > a + 1e-9 * max(1.0, abs(a)) for a, b in zip(trace, trace[1:])):
             R.violation('LMNN/accepted-objective-increased', 'LMNN accepted an iterate with a larger objective', case)
         sel = cap['calls'][:2] + cap['calls'][-2:] if len(cap['calls']) > 4 else cap['calls']
+        # … and at transformations the fit never visits: random, strongly anisotropic ones (the order of the target neighbours by
+        # learned distance then differs from their Euclidean order), of full and of reduced rank
+        if cap.get('args') is not None:
+            X_, dfG_, k_, reg_, tn_, li_ = cap['args']
+            for kk_rows in (d, max(1, d - 1), d):
+                Qr = np.linalg.qr(rng.randn(d, d))[0]
+                Lr = (Qr * 10.0 ** rng.uniform(-1.2, 0.8, size=d)).dot(Qr.T)[:kk_rows] * rng.uniform(0.3, 1.5)
+                try:
+                    out_ = o_lg(est, X_, Lr, dfG_, k_, reg_, tn_, li_)
+                    sel = sel + [(Lr.copy(), float(out_[1]), np.array(out_[0], copy=True), int(out_[2]))]
+                except Exception as e:
+                    R.violation(f'LMNN/loss-grad-raises-{type(e).__name__}', f'_loss_grad raised {type(e).__name__} at a random transformation: {str(e)[:120]}', case)
         for Lc, objc, Gc, nact in sel:
             c2 = dict(case, L=Lc)
             R.case(('c10', 'LMNN', X.tobytes().hex()[:32], Lc.tobytes().hex()), True, branch='LMNN:value-gradient')
